@@ -49,6 +49,26 @@ CORE = [
     '("a", 1) 1 add',
     "[(1 add ?(4 ?lt))*] length",
     "(|A| [A, A 1 add] elem (?(pos == 0) 100, ?(pos == 1) 200) add)",
+    # values stored in the compiled query (literals) and words that could modify an operand in place
+    "[] [1] add",
+    "[] (|E| E [1] add, E [2] add)",
+    "[1] [] add [2] add",
+    "let E := []; (E [1] add, E [2] add) E add",
+    '"" "a" add "b" add',
+    "[[]] elem [1] add",
+    "[] dup [1] add swap [2] add",
+    "(|X| [] [X] add [X] add)",
+    "[[], [1]] (|L| L elem [2] add, L)",
+    "{[] [3] add} (|B| B apply B apply add)",
+]
+# queries that take sequences / strings from the INPUT stack (s1 = `[] [7]`, s2 = `"" []`)
+SEQIN = [
+    "[9] add",
+    "swap [9] add",
+    "(|A B| A [1] add, B [2] add, A B)",
+    "dup [1] add add",
+    "(|A B| [A, B] elem [3] add)",
+    "drop (|A| A [1] add A [2] add add)",
 ]
 DWARF = [
     "entry (pos < 3)", "unit", "entry ?root child (pos < 3)", "entry (pos < 4) parent", "entry (pos < 3) root", "entry (pos < 3) attribute (pos == 0)",
@@ -285,6 +305,8 @@ def replay(case):
     voc = case.get("voc", "core")
     b = ctx.bin("zwdrv")
     setup, inputs = [], inputs_core()
+    if case.get("inputs"):
+        inputs = {k: ("-", v, None) for k, v in case["inputs"].items()}
     if voc == "full":
         setup = ["open id=d1 path=" + drv.hx("/repo/tests/typedef.o"), "open id=d2 path=" + drv.hx("/repo/tests/nontrivial-types.o")]
         inputs = {"s1": ("d1", "", None), "s2": ("d2", "", None)}
@@ -328,6 +350,17 @@ def main(ctx):
         ctx.count("api_steps", r["steps"])
         ctx.count("abstract_states", r["states"])
         for key, what, case in r["bad"]:
+            ctx.violation(key, what, case)
+    # ---- sequences and strings coming from the input stack
+    sins, sref = prepare(b, "core", [], SEQIN, {"s1": ("-", "[] [7]", None), "s2": ("-", '"x" [] []', None)})
+    stasks = [(q, [SEQIN[(k + 1) % len(SEQIN)]], dmax) for k, q in enumerate(SEQIN)]
+    for r in common.pmap(ctx, _worker, stasks, b, "core", extra={"ref": sref, "inputs": sins, "voc": "core", "thorough": thorough}, timeout=60):
+        ctx.count("histories", r["histories"])
+        ctx.count("histories_sequence_inputs", r["histories"])
+        ctx.count("api_steps", r["steps"])
+        ctx.count("abstract_states", r["states"])
+        for key, what, case in r["bad"]:
+            case["inputs"] = {"s1": "[] [7]", "s2": '"x" [] []'}
             ctx.violation(key, what, case)
     # ---- DWARF vocabulary: producers with caches, one Dwarf value reused by every execution
     f1, f2 = "/repo/tests/typedef.o", "/repo/tests/nontrivial-types.o"
